@@ -316,6 +316,45 @@ impl Runner for RefKeys {
     }
 }
 
+/// SuperMinHash over 8-byte array keys behind the crate's identity hasher, hashed in place: successive runs keep the same
+/// keys in differently laid out buffers (a dense array / records of one tag byte + the key, so that the key bytes sit at
+/// every alignment).  The sketch is a function of the key VALUES.
+static LAYOUT: AtomicU64 = AtomicU64::new(0);
+#[repr(C, packed)]
+#[derive(Clone, Copy)]
+struct TaggedKey {
+    tag: u8,
+    key: [u8; 8],
+}
+struct Bytes8;
+impl Runner for Bytes8 {
+    fn run(&mut self, k: &Key, its: &[Item]) -> (Vec<u64>, Option<u64>) {
+        let mut s = probminhash::superminhasher::SuperMinHash::<f64, [u8; 8], probminhash::nohasher::NoHashHasher>::new(
+            k.m,
+            BuildHasherDefault::<probminhash::nohasher::NoHashHasher>::default(),
+        );
+        let mut code = 0u64;
+        if LAYOUT.fetch_add(1, Ordering::Relaxed) % 2 == 0 {
+            let dense: Vec<[u8; 8]> = its.iter().map(|i| i.id.to_le_bytes()).collect();
+            for key in &dense {
+                if s.sketch(key).is_err() {
+                    code = 1;
+                }
+            }
+        } else {
+            let recs: Vec<TaggedKey> = its.iter().map(|i| TaggedKey { tag: 7, key: i.id.to_le_bytes() }).collect();
+            for r in &recs {
+                if s.sketch(&r.key).is_err() {
+                    code = 1;
+                }
+            }
+        }
+        let mut bits = vec![code];
+        bits.extend(s.get_hsketch().iter().map(|x| x.to_bits()));
+        (bits, None)
+    }
+}
+
 fn build(k: &Key) -> Box<dyn Runner> {
     let bh = BuildHasherDefault::<FnvHasher>::default;
     let map = k.entry == "hashmap";
@@ -329,6 +368,7 @@ fn build(k: &Key) -> Box<dyn Runner> {
         "pmh3_refstr" => Box::new(RefKeys("pmh3_refstr")),
         "pmh3a_refstr" => Box::new(RefKeys("pmh3a_refstr")),
         "pmh3_pair" => Box::new(RefKeys("pmh3_pair")),
+        "smh_bytes8_no" => Box::new(Bytes8),
         "pmh2" if map => Box::new(Map2(Pmh2::new(k.m))),
         "pmh3" if map => Box::new(Map3(Pmh3::new(k.m))),
         "pmh3a" if map => Box::new(Map3a(Pmh3a::new(k.m))),
@@ -455,7 +495,7 @@ fn child(a: &Args) {
     // each must still give the sketch of its own input (instances share nothing)
     for (ki, k) in keys.iter().enumerate() {
         if k.entry != "item" || k.kind.starts_with("dens") || k.kind.starts_with("rev") || k.kind.starts_with("ord2")
-            || k.kind.ends_with("_refstr") || k.kind.ends_with("_pair")
+            || k.kind.ends_with("_refstr") || k.kind.ends_with("_pair") || k.kind.starts_with("smh_bytes8")
         {
             continue;
         }
